@@ -46,6 +46,7 @@ type lkPeer struct {
 	Provs  []int  `json:"provs,omitempty"`   // GET_PROVIDERS: provider refs (as Knows)
 	PNoAdr bool   `json:"pnoaddr,omitempty"` // providers listed without addresses
 	Put    string `json:"put,omitempty"`     // PUT_VALUE / ADD_PROVIDER treatment: "" ok | fail | hang
+	LateMs int    `json:"late_ms,omitempty"` // an answer at most this far away when the request's context ends is delivered all the same
 }
 
 type lkSc struct {
@@ -282,10 +283,11 @@ func newSimEnv(s *lkSc, hook respondHook, extra ...Option) (*simEnv, error) {
 				if r.Latency == 0 {
 					r.Latency = lat
 				}
+				r.LateGrace = time.Duration(lp.LateMs) * time.Millisecond
 				return *r
 			}
 		}
-		return verifnet.Reply{Latency: lat, Resp: base}
+		return verifnet.Reply{Latency: lat, Resp: base, LateGrace: time.Duration(lp.LateMs) * time.Millisecond}
 	}
 	h.ConnectFn = sim.Connect
 	opts := []Option{
